@@ -642,6 +642,11 @@ func (rl *Shell) viDeleteChar() {
 	vii := rl.Iterations.Get()
 
 	for i := 1; i <= vii; i++ {
+		// Not more characters than there are on the line.
+		if rl.cursor.Pos() >= rl.line.Len() || rl.cursor.Char() == '\n' {
+			break
+		}
+
 		cutBuf = append(cutBuf, rl.cursor.Char())
 		rl.line.CutRune(rl.cursor.Pos())
 	}
